@@ -44,12 +44,24 @@ def run(ctx, replay):
     ctx.model_check("IDDict", "MCIDDict_thorough.cfg" if thorough else "MCIDDict.cfg", timeout=1800)
     for dev in ("mem", "disk", "cache"):
         ctx.model_check("IDDict", "MCIDDict_dev_%s.cfg" % dev, expect="violation", timeout=600)
+    # series ids of one metric in one shard: dictionary + postings, event loop vs background flush job, crash.
+    # Both protective properties of the code on -> Stable / Injective / UsedDurable; each one off -> counterexample
+    ctx.model_check("IDDictSeries", "MCIDDictSeries_thorough.cfg" if thorough else "MCIDDictSeries.cfg", timeout=900)
+    for dev in ("bgprepare", "dictfirst"):
+        ctx.model_check("IDDictSeries", "MCIDDictSeries_dev_%s.cfg" % dev, expect="violation", timeout=300)
     tr = os.path.join(ctx.scratch, "iddict.ndjson")
     scr = os.path.join(ctx.scratch, "scr-iddict")
     os.makedirs(scr, exist_ok=True)
-    nc, ng, ns, ni = (3000, 400, 200, 60) if thorough else (300, 60, 24, 6)
+    nc, ng, ns, ni, nl = (3000, 400, 200, 60, 400) if thorough else (300, 60, 24, 6, 40)
     summ, rc, _ = ctx.run_vdrive(["iddict", "--seed", ctx.seed, "--concurrent", nc, "--gated", ng, "--sequential", ns,
-                                  "--images", ni, "--out", tr, "--scratch", scr], timeout=3000)
+                                  "--images", ni, "--loop", nl, "--out", tr, "--scratch", scr], timeout=3000)
+    ctx.extra["loop_histories"] = nl
+    ctx.extra["loop_blocked_steps"] = summ["extra"].get("loop_blocked", 0)
+    if summ["extra"].get("loop_stuck", 0):
+        raise vcore.Unresolved("index-loop: %d gated schedule(s) made no progress" % summ["extra"]["loop_stuck"])
+    if nl and not summ["extra"].get("loop_blocked", 0):
+        # on a tree whose loop runs prepare-flush itself some scheduled steps must have been refused
+        ctx.log("index-loop: no scheduled step was blocked (every forced order was possible)")
     ctx.extra["events"] = summ["events"]
     ctx.extra["crash_images"] = summ["extra"].get("images", 0)
     ctx.extra["concurrent_histories"] = nc
@@ -105,8 +117,66 @@ def run(ctx, replay):
             f.write("".join(t))
     vcore.corrupt_selftest(ctx, "IDDictTrace", "IDDictTrace.cfg", seq, second_id, "a name is returned with a second id")
     vcore.corrupt_selftest(ctx, "IDDictTrace", "IDDictTrace.cfg", seq, shared_id, "two metric names share an id")
+
+    # index-loop family (the last nl traces of the file): series ids after a restart, postings
+    def series_rets(lines):
+        """(line index of the Ret, scope, name, id, index of the last Reopen / Reset before it)"""
+        out, call, epoch = [], {}, 0
+        for i, ln in enumerate(lines):
+            if '"ev":"Reset"' in ln or '"ev":"Reopen"' in ln:
+                call, epoch = {}, i
+            elif '"ev":"Call"' in ln:
+                d = json.loads(ln)
+                call[d["t"]] = d
+            elif '"ev":"Ret"' in ln:
+                d = json.loads(ln)
+                c = call.pop(d["t"], None)
+                if c and c["kind"] == "series" and d.get("found"):
+                    out.append((i, c["scope"], c["name"], d["id"], epoch))
+        return out
+
+    def recovered_id_reused(lines):
+        # after a restart a series comes back with the id another series of the metric was returned with
+        rets = series_rets(lines)
+        for i, scope, name, rid, ep in rets:
+            if '"ev":"Reopen"' not in lines[ep]:
+                continue
+            for j, scope2, name2, rid2, ep2 in rets:
+                if ep2 == ep and j < i and scope2 == scope and name2 != name and rid2 != rid:
+                    d = json.loads(lines[i])
+                    d["id"] = rid2
+                    out = list(lines)
+                    out[i] = json.dumps(d, separators=(",", ":")) + "\n"
+                    return out
+        return None
+
+    def posting_missing(lines):
+        # the postings of a metric lack the id of a series the dictionary has just resolved
+        rets = series_rets(lines)
+        for i, ln in enumerate(lines):
+            if '"ev":"Postings"' not in ln:
+                continue
+            d = json.loads(ln)
+            for j, scope, name, rid, ep in rets:
+                if j < i and scope == d["scope"] and rid in d["ids"] and \
+                        not any('"ev":"Reopen"' in x or '"ev":"Reset"' in x for x in lines[j:i]):
+                    d["ids"] = [x for x in d["ids"] if x != rid]
+                    out = list(lines)
+                    out[i] = json.dumps(d, separators=(",", ":")) + "\n"
+                    return out
+        return None
+    if nl:
+        loop = os.path.join(ctx.scratch, "iddict-loop.ndjson")
+        with open(loop, "w") as f:
+            for t in vcore.split_traces(lines)[-nl:][:4]:
+                f.write("".join(t))
+        vcore.corrupt_selftest(ctx, "IDDictTrace", "IDDictTrace.cfg", loop, recovered_id_reused,
+                               "a series comes back after a restart with the id of another series")
+        vcore.corrupt_selftest(ctx, "IDDictTrace", "IDDictTrace.cfg", loop, posting_missing,
+                               "the postings of a metric lack the id of a resolved series")
     ctx.assumptions += [
         "traces are validated against the abstract dictionary (specification layer of IDDict); the implementation model of the lock sections is bound by TLC refinement and by the gated scenarios that drive the real code through its counterexample windows",
-        "concurrent callers: GenMetricID / GenTagKeyID / GenTagValueID / GetMetricID on one shared MetricMetaDatabase (what the metadata goroutine and the shards' index goroutines do); field ids are created by one goroutine; series ids (one goroutine per shard) are covered by the C07 / C10 drivers",
+        "concurrent callers: GenMetricID / GenTagKeyID / GenTagValueID / GetMetricID on one shared MetricMetaDatabase (what the metadata goroutine and the shards' index goroutines do); field ids are created by one goroutine",
+        "series ids: the shard's index event loop (memdb.NewIndexDatabase over the real index / metadata databases) is driven with rows and flush requests under gated schedules (gates = driver-side wrappers at PrepareFlush, Flush, GenSeriesID and its mid point MetricMetaDatabase.Name()); a scheduled step is recorded as blocked when the loop goroutine is parked at a gate of an earlier item of the channel (single in-order consumer); crash = close of both loops and stores without flush at quiescent points (crash images inside an index flush are C07's)",
         "crash = the metadata directory copied after each file-system operation of a metadata flush (kv seams); the sequence file is a MAP_SHARED mapping",
     ]
